@@ -155,6 +155,7 @@ type advCredBuilder struct {
 	skR     *big.Int
 	extraR  *big.Int
 	pcomm   *ProofPCommitment
+	negSkR  bool // use the negated shared secret-key randomiser (responses then are negative: in-memory only)
 
 	negative bool
 }
@@ -184,6 +185,9 @@ func (b *advCredBuilder) SetProofPCommitment(c *ProofPCommitment) { b.pcomm = c 
 func (b *advCredBuilder) Commit(randomizers map[string]*big.Int) ([]*big.Int, error) {
 	pk := b.kp.Pk
 	b.skR = randomizers["secretkey"]
+	if b.negSkR && b.skR != nil {
+		b.skR = new(big.Int).Neg(b.skR)
+	}
 	uc := new(big.Int).Exp(pk.S, b.vC, pk.N)
 	uc.Mul(uc, new(big.Int).Exp(pk.R[0], b.skR, pk.N)).Mod(uc, pk.N)
 	if b.claimed != nil {
